@@ -2012,3 +2012,12 @@ Proof.
     - rewrite (nth_overflow pat) by assumption. rewrite nth_nil. left. reflexivity. }
   apply accepted_upper; assumption.
 Qed.
+
+(* ---- MockDisplay implements only draw_iter: fill_solid / fill_contiguous / clear ARE the trait defaults ---- *)
+(* (the translator refuses a source in which `impl DrawTarget for MockDisplay` has any other method) *)
+Theorem only_draw_iter d :
+  DRAWTARGET_ONLY_DRAW_ITER = true /\
+  (forall r c, apply_op d (OpFillSolid r c) = draw_iter d (map (fun p => (p, c)) (points r))) /\
+  (forall r cs, apply_op d (OpFillContiguous r cs) = draw_iter d (zip (points r) cs)) /\
+  (forall c, apply_op d (OpClear c) = draw_iter d (map (fun p => (p, c)) (points (R (P 0 0) (S SIZE SIZE))))).
+Proof. split; [reflexivity|]. split; [reflexivity|]. split; reflexivity. Qed.
